@@ -57,7 +57,7 @@ CLAIMED = {
          "Needs the cfg-guarded init probe; deadlock = 10 s watchdog reproduced; the listed known finding (torn registration) is tolerated by exact signature only.",
          "DESIGN.md §4 C13"),
  "C14": ("exhaustive matrix plus generated chains in fresh child processes: every handler kind x every re-entrant action, each handler probing all engine locks with try_lock before acting, under a watchdog",
-         "Exploration, exhaustive over the stated matrix: 8 handler kinds x 10 re-entrant actions, all ordered kind pairs x 3 actions, and ~8000 generated chains of 2-4 handlers; every handler finds all registries and the evaluating context unlocked, the action completes and the outer evaluation returns the hand-computed value.",
+         "Exploration, exhaustive over the stated matrix: 12 handler kinds x 11 re-entrant actions, all ordered kind pairs x 3 actions, and ~8000 generated chains of 2-4 handlers; every handler finds all registries and the evaluating context unlocked, the action completes and the outer evaluation returns the hand-computed value.",
          "Lock state through the cfg-guarded locks_free() hook and the context's public mutex; single-threaded evaluations, so a held lock is attributable to the engine.",
          "DESIGN.md §4 C14"),
  "C18": ("stateful property testing: generated descriptor-registration histories in fresh child processes over 1-3 persistent threads; describe() of every AST after every step on every thread against a model registry of marker descriptors; exhaustive single-registration table",
@@ -77,7 +77,7 @@ CLAIMED = {
          "Trusts structural comparison of the engine's own AST type; names are never operator words (the property's precondition).",
          "DESIGN.md §4 C12"),
  "C17": ("property-based testing: generated integers/floats/decimals/values against an exact big-integer oracle; exhaustive accessor x variant table",
-         "Exploration: every integer type over all magnitudes (uniform + boundary ladders), floats over all exponents, decimals of every scale and the full accessor table are converted and compared with exact arithmetic; held on everything generated. Not a proof.",
+         "Exploration: every integer type over all magnitudes (uniform + boundary ladders), floats over all exponents (integer-valued ones must be exact, float() must be correctly rounded), decimals of every scale and the full accessor table are converted and compared with exact arithmetic; held on everything generated apart from the listed known findings. Not a proof.",
          "Trusts Decimal::mantissa()/scale() for reading results and the harness's own big-integer code (unit-tested against hand-computed vectors); float tolerance is stated in the evidence.",
          "DESIGN.md §4 C17"),
 }
